@@ -21,6 +21,10 @@ Parses the sources with `ast` (never imports them) and renders
    object / source tree by object required, `return item`): a statement that lets an item through before the
    membership test (a fast path for handles that "look like" the block's own) is outside the vocabulary; the
    statements of `LinkContainer.extend` (`EStmt`: every item through `_accept` before the first link is written);
+ * the bodies of the `MultiTag.positions` / `MultiTag.extents` setters (`RStmt`: None refused / link removed, class
+   test, membership of the array itself in the block's data_arrays, old link dropped, link written, time stamp) and
+   of the `Feature.data` setter (`FStmt`: the isinstance chain with the membership tests and the Tagged/DataFrame
+   refusal, THEN `target_type`, the old link, the new link);
  * the comparisons by which `Container.__contains__` and `SourceLinkContainer._accept` decide that an entity is
    "this very object" (HDF5 object equality, not equality of names or ids).
 
@@ -286,6 +290,70 @@ def _extend_body(fn, where):
     return "[" + ", ".join(out) + "]"
 
 
+def _role_stmts(sts, where, role, var="da"):
+    """statements of a positions / extents setter (or of one branch of it) as RStmt terms"""
+    out = []
+    for st in sts:
+        src = " ".join(_u(st).split())
+        if _is_raise_if(st, "%s is None" % var, "TypeError"):
+            out.append(".refuseNone")
+        elif _is_raise_if(st, "not isinstance(%s, DataArray)" % var, "TypeError"):
+            out.append(".requireArray")
+        elif _is_raise_if(st, "%s not in self._parent.data_arrays" % var, "RuntimeError"):
+            out.append('(.requireMember "data_arrays")')
+        elif src == "if '%s' in self._h5group: del self._h5group['%s']" % (role, role):
+            out.append("(.dropOld %s)" % lean_str(role))
+        elif src == "self._h5group.create_link(%s, '%s')" % (var, role):
+            out.append("(.link %s)" % lean_str(role))
+        elif src == "if self.file.auto_update_timestamps: self.force_updated_at()":
+            out.append(".stamp")
+        else:
+            raise _bad(where, st)
+    return out
+
+
+def _feat_stmts(sts, where):
+    """statements of the `Feature.data` setter (or of a branch of its isinstance chain) as FStmt terms"""
+    out = []
+    for st in sts:
+        src = " ".join(_u(st).split())
+        if _is_raise_if(st, "dataobj is None", "TypeError"):
+            out.append(".refuseNone")
+        elif src == "parblock = self._parent._parent":
+            out.append(".bindBlock")
+        elif isinstance(st, ast.If) and _u(st.test) == "isinstance(dataobj, DataArray)" and len(st.orelse) == 1 \
+                and isinstance(st.orelse[0], ast.If) and _u(st.orelse[0].test) == "isinstance(dataobj, DataFrame)" \
+                and len(st.orelse[0].orelse) == 1 and isinstance(st.orelse[0].orelse[0], ast.Raise) \
+                and isinstance(st.orelse[0].orelse[0].exc, ast.Call) \
+                and _u(st.orelse[0].orelse[0].exc.func) == "TypeError":
+            out.append("(.classChain %s %s)" % (_lean_list(_feat_stmts(st.body, where + " (DataArray branch)")),
+                                               _lean_list(_feat_stmts(st.orelse[0].body, where + " (DataFrame branch)"))))
+        elif _is_raise_if(st, "dataobj not in parblock.data_arrays", "RuntimeError"):
+            out.append('(.requireMember "data_arrays")')
+        elif _is_raise_if(st, "dataobj not in parblock.data_frames", "RuntimeError"):
+            out.append('(.requireMember "data_frames")')
+        elif _is_raise_if(st, "self.link_type == LinkType.Tagged", "UnsupportedLinkType"):
+            out.append(".refuseTagged")
+        elif isinstance(st, ast.Assign) and _u(st.targets[0]) == "objtype" and isinstance(st.value, ast.Constant) \
+                and isinstance(st.value.value, str):
+            out.append("(.setObjType %s)" % lean_str(st.value.value))
+        elif src == "self._h5group.set_attr('target_type', objtype)":
+            out.append(".writeTargetType")
+        elif src == "if 'data' in self._h5group: del self._h5group['data']":
+            out.append(".dropOld")
+        elif src == "self._h5group.create_link(dataobj, 'data')":
+            out.append(".link")
+        elif isinstance(st, ast.If) and not st.orelse and _u(st.test) == "self.file.auto_update_timestamps":
+            out.append(".stamp")
+        else:
+            raise _bad(where, st)
+    return out
+
+
+def _lean_list(items):
+    return "[" + ", ".join(items) + "]"
+
+
 def _object_comparisons(fn):
     """`<a> == <b>` comparisons in a body, as source text"""
     out = []
@@ -361,6 +429,18 @@ def extract(repo):
     accept_link = _accept_body(_func(lc, "_accept", "container.py"), "LinkContainer._accept", False)
     extend_shape = _extend_body(_func(lc, "extend", "container.py"), "LinkContainer.extend")
 
+    # the positions / extents setters, statement by statement
+    pos_body = _lean_list(_role_stmts(_stmts(_func(mt, "positions", "multi_tag.py", setter=True)),
+                                      "MultiTag.positions setter", "positions"))
+    ext = _stmts(_func(mt, "extents", "multi_tag.py", setter=True))
+    if not (ext and isinstance(ext[0], ast.If) and _u(ext[0].test) == "da is None" and ext[0].orelse):
+        raise ExtractError("MultiTag.extents setter: expected `if da is None: ... else: ...` first")
+    ext_none = _lean_list(_role_stmts(ext[0].body, "MultiTag.extents setter (None branch)", "extents"))
+    ext_set = _lean_list(_role_stmts(ext[0].orelse, "MultiTag.extents setter (else branch)", "extents"))
+    ext_tail = _lean_list(_role_stmts(ext[1:], "MultiTag.extents setter", "extents"))
+
+    feat_body = _lean_list(_feat_stmts(_stmts(_func(ft, "data", "feature.py", setter=True)), "Feature.data setter"))
+
     cont = _class(ctree, "Container", "container.py")
     contains_cmp = _object_comparisons(_func(cont, "__contains__", "container.py"))
     stree = _parse(repo, os.path.join("nixio", "source_link_container.py"))
@@ -415,6 +495,14 @@ def extract(repo):
     L.append("def sourceAcceptBody : List Nix.Store.AStmt := %s" % accept_source)
     L.append("/-- the statements of `LinkContainer.extend` -/")
     L.append("def extendBody : List Nix.Store.EStmt := %s" % extend_shape)
+    L.append("/-- the statements of the `MultiTag.positions` setter -/")
+    L.append("def positionsSetterBody : List Nix.Store.RStmt := %s" % pos_body)
+    L.append("/-- the `MultiTag.extents` setter: `if da is None: <none> else: <set>`, then `<tail>` -/")
+    L.append("def extentsNoneBody : List Nix.Store.RStmt := %s" % ext_none)
+    L.append("def extentsSetBody : List Nix.Store.RStmt := %s" % ext_set)
+    L.append("def extentsTail : List Nix.Store.RStmt := %s" % ext_tail)
+    L.append("/-- the statements of the `Feature.data` setter -/")
+    L.append("def featureDataBody : List Nix.Store.FStmt := %s" % feat_body)
     L.append("")
     L.append("end Nix.DimLink.Gen")
     return {TARGET: "\n".join(L) + "\n"}
